@@ -128,7 +128,7 @@ def structure(sim):
         if not pop.entity.is_person:
             rec["members_entity_id"] = canon(pop.members_entity_id)
             rec["members_position"] = canon(pop.members_position)
-            rec["members_role"] = [r.key for r in pop.members_role]
+            rec["members_role"] = [getattr(r, "key", repr(r)) for r in pop.members_role]
         out[key] = rec
     return out
 
